@@ -125,37 +125,44 @@ def run(prog, rep, tier='quick', config='default'):
         else:
             rep.violation('R13c', k + '|not-when-forced', where=g.where(), fn=fn.name,
                           detail='the cache is consulted even when a download is forced (no dominating test of RateLoader.force_download)')
-        # R13b: returns of cache-derived data
+        # R13b: returns of cache-derived data. Acceptance edges: the true edge of `map.contains_key(requested date)` and the
+        # true edge of `fresh_years.contains(year)`. Every path from the cache read to a return of cached data must
+        # use at least one of them (handles `a || b` as well as nested ifs).
         seeds = {g.dst['l']}
         t = mir.forward_taint(fn, seeds)
+        accept = set()
+        reasons = {}
+        for i, b in fn.blocks.items():
+            e = fn.bool_switch_edges(i)
+            if e is None:
+                continue
+            d = mir.provenance(fn, b['term']['discr'], follow_all_call_args=True)
+            flipped = any(op == 'Not' for op, _ in d.binops)
+            true_t, false_t = (e[1], e[0]) if flipped else e
+            for x in d.calls:
+                if x.short == 'contains_key' and re.search(r'HashMap<time::Date, ', fn.ty.get(x.arg_local(0), '')):
+                    ko = mir.provenance(fn, x.args[1], follow_all_call_args=True)
+                    if ko.params or ko.upvars:
+                        accept.add((i, true_t))
+                        reasons[(i, true_t)] = 'the cached year contains the requested date'
+                if x.short == 'contains' and re.search(r'HashSet<u32', fn.ty.get(x.arg_local(0), '')):
+                    accept.add((i, true_t))
+                    reasons[(i, true_t)] = 'the year was downloaded during this run'
         n_ret = 0
+        reach_plain = fn.reachable_avoiding_edges(g.bb, accept)
         for i, b in fn.blocks.items():
             for s in b['stmts']:
                 if s['dst']['l'] == 0 and s['r']['rv'] == 'agg' and s['r']['kind'].endswith('Result::Ok') and \
                         any(is_place(o) and o['pl']['l'] in t for o in s['r']['ops']):
                     n_ret += 1
-                    ok = False
-                    why = []
-                    for (sbb, discr, vals, neg) in fn.conditions_at(i):
-                        d = mir.provenance(fn, discr, follow_all_call_args=True)
-                        tt = truth_of(vals, neg)
-                        for x in d.calls:
-                            if x.short == 'contains_key' and re.search(r'HashMap<time::Date, ', fn.ty.get(x.arg_local(0), '')) and tt:
-                                # the key is the requested date (a parameter / capture of this body)
-                                ko = mir.provenance(fn, x.args[1], follow_all_call_args=True)
-                                if ko.params or ko.upvars:
-                                    ok = True
-                                    why.append('the cached year contains the requested date')
-                            if x.short == 'contains' and re.search(r'HashSet<u32', fn.ty.get(x.arg_local(0), '')) and tt:
-                                ok = True
-                                why.append('the year was downloaded during this run')
                     kk = '%s|cache-accepted#%d' % (fn.name, n_ret)
-                    if ok:
-                        rep.ok('R13b', kk, where=fn.where(s), fn=fn.name, detail='cached rates are returned only when %s' % ' / '.join(sorted(set(why))))
-                    else:
+                    if i in reach_plain:
                         rep.violation('R13b', kk, where=fn.where(s), fn=fn.name,
                                       detail='rates read from the cache are returned without checking that the cache covers the requested date '
                                              '(or that the year was downloaded in this run): a stale cache would change the answer')
+                    else:
+                        used = sorted({reasons[e2] for e2 in accept if i in ({e2[1]} | fn.reachable_from(e2[1]))})
+                        rep.ok('R13b', kk, where=fn.where(s), fn=fn.name, detail='cached rates are returned only when %s' % ' / '.join(used))
         if n_ret == 0:
             rep.violation('R13b', '%s|anchor-lost:cache-return' % fn.name, fn=fn.name, detail='anchor lost: no return of cache-derived rates found')
 
